@@ -49,6 +49,17 @@ def units(w):
             r0, r1 = RANK.get(q, 0), RANK.get(q2, 0) if isinstance(q2, int) else 3
             it.check("variant:progress-or-lower-rank", z3.Or(adv, z3.And(same, r1 < r0)))
             it.check("post:cursor-stays-in-the-text", z3.And(zi(L["pos"]) >= 0, zi(L["pos"]) <= zi(pre["n"])))
+            # what the parser units assume about every token (contracts/parserproof.py TOKEN_WF): word classes are disjoint
+            from .parserproof import WORDS_NOT_IDENTIFIERS
+            from pyvc.values import zs, is_strlike
+            for t in st.emitted:
+                ty, va = t.fields["type"], t.fields["value"]
+                it.check("post:emitted-token-has-a-known-type", isinstance(ty, str) and ty in ("identifier", "keyword", "boolean", "string", "int", "decimal",
+                                                                                          "pattern", "operator", "interpunction"), detail=repr(ty))
+                if ty == "identifier":
+                    it.check("post:an-identifier-token-is-never-a-keyword-or-TRUE/FALSE", z3.And(*[zs(va) != z3.StringVal(k) for k in WORDS_NOT_IDENTIFIERS]) if is_strlike(va) else False)
+                if ty == "keyword":
+                    it.check("post:a-keyword-token-is-one-of-the-keywords", z3.Or(*[zs(va) == z3.StringVal(k) for k in WORDS_NOT_IDENTIFIERS[:-2]]) if is_strlike(va) else False)
         return post
     for q in STATES:
         U.append(step_unit(w, f"state {q}: safety, invariant, progress", q, post_for(q), replay=replay_b))
@@ -113,7 +124,7 @@ def _try(parser, errors, src):
     except _Alarm:
         return ("bad", "does not terminate within 2 s")
     except RecursionError:
-        return ("deep", "")
+        return ("bad", "host RecursionError")
     except BaseException as e:
         return ("bad", f"host {type(e).__name__}: {e}")
 
@@ -162,7 +173,9 @@ def fuzz_inputs(tier, seed):
     for _ in range(40000 if tier == "thorough" else 10000):
         out.append("".join(rnd.choice(noise) for _ in range(rnd.randint(0, 14))))
     for s in ["0x", "0b", "0x_", "'\\x", "'\\xZ", "'\\xZZ'", '"\\x4', "//", "//[//", "///", "1.", "1._", "1__2", "0b2", "0xG", "...", "..", "<<<<>>>>",
-              ">>>>>", "\\", "'", '"', "#", "# only a comment", "", " ", "\n", "\r\n", "(" * 30 + "1" + ")" * 30, "[" * 30 + "]" * 30]:
+              ">>>>>", "\\", "'", '"', "#", "# only a comment", "", " ", "\n", "\r\n", "(" * 30 + "1" + ")" * 30, "[" * 30 + "]" * 30,
+              "(" * 3000 + "1" + ")" * 3000, "[" * 3000 + "]" * 3000, "f(" * 2000, "- " * 2000 + "x", "a[" * 2000, "<<" * 1500, "fn() " * 2000 + "1",
+              "if a then " * 1500 + "1", "1" + " + 1" * 4000, "1" * 5000, "1." + "5" * 5000, "'" + "a" * 100000 + "'", "# c\n" * 1000]:
         out.append(s)
     return out
 
